@@ -17,9 +17,9 @@ TECHNIQUE = ('property-based testing (Hypothesis), metamorphic relation: generat
              'points, optional pickle round trip, new simulator object per part); concatenated results must equal the '
              'uninterrupted ones')
 RULE = ('Generated network spec (netgen: 2-7 junctions, 1-2 tanks, pumps/valves/CV pipes, leaks with start/end times, '
-        'DD or PDD) + 0-4 simple controls (tank level, sim time, clock time) + 0-3 rules (tank level / SYSTEM TIME / '
+        'DD or PDD) + 0-4 simple controls (tank level, sim time, clock time; one head pump in three also gets a time control assigning it a second, scaled curve) + 0-3 rules (tank level / SYSTEM TIME / '
         'SYSTEM CLOCKTIME premises, AND/OR, ELSE, priorities) + 1-3 pause points on the hydraulic grid, each with a '
-        'pickle flag. Report step ALL; rows on the hydraulic grid are compared. Non-trivial = the uninterrupted run converged and, after the first '
+        'pickle flag; 10 hand-built scenarios switch the curve of a pump that is shut off (or running) around pauses at 2-6 h. Report step ALL; rows on the hydraulic grid are compared. Non-trivial = the uninterrupted run converged and, after the first '
         'pause, some link status changes or some leak switches or a control threshold of a tank is crossed; distinct = '
         'SHA-1 of the case.')
 ASSUMPTIONS = ['runs that do not converge (uninterrupted or in parts) are inconclusive',
@@ -47,7 +47,7 @@ OPS = ['>', '>=', '<', '<=']
 
 
 @st.composite
-def strategy(draw, tier='quick'):
+def strategy(draw, tier='quick', curve_controls=True):
     f = dict(FEAT)
     if tier == 'thorough':
         f['nj'] = (2, 12)
@@ -87,6 +87,16 @@ def strategy(draw, tier='quick'):
         else:
             controls.append({'kind': 'time', 'clock': True, 'daily': True, 'at': 900 * draw(st.integers(0, 95)),
                              'link': name, 'attr': attr, 'value': val})
+    if curve_controls:
+        # a time control that gives a head pump another curve (a simulator that keeps anything derived from the curve
+        # it saw when it was created then disagrees with the new simulator of a continuation)
+        for p in sp['pumps']:
+            if p['type'] == 'HEAD' and draw(st.integers(0, 2)) == 0:
+                fac = draw(st.sampled_from([0.6, 0.8, 1.5, 2.0]))
+                cname = 'HX_' + p['name']
+                sp['curves'][cname] = {'type': 'HEAD', 'pts': [[q, round(h * fac, 3)] for q, h in sp['curves'][p['curve']]['pts']]}
+                controls.append({'kind': 'time', 'at': o['hyd'] * draw(st.integers(1, max(1, nsteps))), 'link': p['name'],
+                                 'attr': 'pump_curve_name', 'value': cname})
     sp['controls'] = controls
 
     def leaf():
@@ -110,6 +120,24 @@ def strategy(draw, tier='quick'):
     np_ = draw(st.sampled_from([1, 1, 2, 3]))
     pauses = sorted(set(o['hyd'] * draw(st.integers(0, max(0, nsteps - 1))) for _ in range(np_)))
     return {'spec': sp, 'rules': rules, 'pauses': pauses, 'pickle': [draw(st.booleans()) for _ in pauses]}
+
+
+def enumerate_cases(tier):
+    """hand-built: a head pump that is shut off by its weak curve (shut-off head below the static lift) gets a strong
+    curve from a time control at 3 h; pauses before, at and after the switch, with and without pickling"""
+    from .c09 import _base, _junction, _opts, _pipe
+    for weak, strong in (([[0.05, 20.0]], [[0.05, 40.0]]), ([[0.05, 40.0]], [[0.05, 20.0]])):
+        for pause, pk in ((2, False), (3, True), (4, False), (5, True), (6, False)):
+            s = _base(_opts(8 * 3600, 3600))
+            s['reservoirs'] = [{'name': 'R1', 'head': 10.0, 'pat': None}]
+            s['tanks'] = [{'name': 'T1', 'elev': 40.0, 'init': 3.0, 'min': 0.0, 'max': 8.0, 'diam': 12.0, 'min_vol': 0.0,
+                           'vol_curve': None}]
+            s['junctions'] = [_junction('J1', 0.0, 0.0), _junction('J2', 5.0, 0.004, 'P1')]
+            s['curves'] = {'HC1': {'type': 'HEAD', 'pts': weak}, 'HC2': {'type': 'HEAD', 'pts': strong}}
+            s['pumps'] = [{'name': 'PU1', 'a': 'R1', 'b': 'J1', 'type': 'HEAD', 'power': None, 'curve': 'HC1', 'status': 'OPEN'}]
+            s['pipes'] = [_pipe('L1', 'J1', 'T1'), _pipe('L2', 'T1', 'J2')]
+            s['controls'] = [{'kind': 'time', 'at': 3 * 3600, 'link': 'PU1', 'attr': 'pump_curve_name', 'value': 'HC2'}]
+            yield {'spec': s, 'rules': [], 'pauses': [pause * 3600], 'pickle': [pk]}
 
 
 def summarize(case):
@@ -165,6 +193,8 @@ def check(case):
         tags.append('rules')
     for c in sp['controls']:
         tags.append('ctl:' + ('clock' if c.get('clock') else c['kind']))
+        if c['attr'] == 'pump_curve_name':
+            tags.append('ctl:pump_curve_switch')
     if 0 in case['pauses']:
         tags.append('pause_at_0')
     hw = o['hw_approx']
